@@ -52,4 +52,180 @@ CONSTANTS = {
          r"pub\s+const\s+GRPC_TARGET_MAX_FLIGHT_SIZE_BYTES\s*:\s*usize\s*=\s*([^;]+);", "int"),
     ],
 }
+
+# ---------------------------------------------------------------------------------------------
+# SHAPE ties: the exact token sequence of the critical expressions the model mirrors (whitespace
+# insensitive).  kind "intlist" with an empty capture group: the constant is `[]` while the source
+# still has this shape and goes LOST (and breaks `ArrowModel.C04.shapes_tied`) as soon as an
+# operand, guard, or statement order is edited.
+import re as _re
+
+def _shape(src):
+    return r"\s*".join(_re.escape(tok) for tok in src.split()) + r"()"
+
+_W = "arrow-ipc/src/writer.rs"
+_R = "arrow-ipc/src/reader.rs"
+_SHAPES = [
+    ("SHAPE_REENCODE_WINDOW", _W, "let offset_slice = &offsets_slice[data.offset()..data.offset() + data.len() + 1];"),
+    ("SHAPE_REENCODE_MATCH", _W, """let offsets = match start_offset.as_usize() {
+            0 => {
+                let size = size_of::<O>();
+                offsets.slice_with_length(data.offset() * size, (data.len() + 1) * size)
+            }
+            _ => offset_slice.iter().map(|x| *x - *start_offset).collect(),
+        };"""),
+    ("SHAPE_REENCODE_RESULT", _W, "(offsets, start_offset, end_offset - start_offset)"),
+    ("SHAPE_BYTE_ARRAY_WINDOW", _W, """let (offsets, original_start_offset, len) = reencode_offsets::<O>(&data.buffers()[0], data);
+    let values = data.buffers()[1].slice_with_length(original_start_offset, len);
+    [offsets, values]"""),
+    ("SHAPE_LIST_CHILD_WINDOW", _W, """let (offsets, original_start_offset, len) = reencode_offsets::<O>(&data.buffers()[0], data);
+    let child_data = data.child_data()[0].slice(original_start_offset, len);
+    (offsets, child_data)"""),
+    ("SHAPE_NEED_TRUNCATE", _W, "spec != &BufferSpec::AlwaysNull && (array_offset != 0 || min_length < buffer.len())"),
+    ("SHAPE_TRUNCATE", _W, """let min_length = array_data.len() * byte_width;
+    if buffer_need_truncate(array_data.offset(), buffer, spec, min_length) {
+        let byte_offset = array_data.offset() * byte_width;
+        let buffer_length = min(min_length, buffer.len() - byte_offset);
+        buffer.slice_with_length(byte_offset, buffer_length)
+    } else {
+        buffer.clone()
+    }"""),
+    ("SHAPE_VALIDITY_SLICED", _W, "Some(buffer) => buffer.inner().sliced(),"),
+    ("SHAPE_VALIDITY_SYNTH", _W, """let num_bytes = bit_util::ceil(num_rows, 8);
+                let buffer = MutableBuffer::new(num_bytes);
+                let buffer = buffer.with_bitset(num_bytes, true);"""),
+    ("SHAPE_BOOL_BIT_SLICE", _W, "let buffer = buffer.bit_slice(array_data.offset(), array_data.len());"),
+    ("SHAPE_FSL_CHILD", _W, """let child_offset = array_data.offset() * fixed_size;
+        let child_length = array_data.len() * fixed_size;
+        let child_data = array_data.child_data()[0].slice(child_offset, child_length);"""),
+    ("SHAPE_PAD", _W, """let a = usize::from(alignment - 1);
+    ((len + a) & !a) - len"""),
+    ("SHAPE_LAYOUT", _W, """let alignment_mask = usize::from(write_options.alignment - 1);
+        let padded_header_len = (metadata_len + prefix_size + alignment_mask) & !alignment_mask;
+        let padded_metadata_len = padded_header_len - prefix_size;
+        let metadata_padding = padded_metadata_len - metadata_len;"""),
+    ("SHAPE_ENCODED_DATA", _W, """self.write_continuation(write_options, layout.padded_metadata_len as i32)?;
+        self.write_vec(metadata)?;
+        self.write_padding(layout.metadata_padding)?;
+
+        let body_len = if arrow_data_len > 0 {
+            self.write_body_data(encoded.arrow_data, write_options.alignment)?
+        } else {
+            0
+        };
+
+        Ok((layout.padded_header_len, body_len))"""),
+    ("SHAPE_ALIGN_CHECK", _W, "if !arrow_data_len.is_multiple_of(usize::from(write_options.alignment)) {"),
+    ("SHAPE_CONT_V5", _W, """crate::MetadataVersion::V5 => {
+                buffer[..4].copy_from_slice(&CONTINUATION_MARKER);
+                buffer[4..].copy_from_slice(&metadata_len.to_le_bytes());
+                8
+            }"""),
+    ("SHAPE_SINK_BUFFER", _W, """let pad_len = pad_to_alignment(alignment, len as usize);
+    sink.write(pad_len, encoded);
+    ipc_meta_data.buffers.push(crate::Buffer::new(offset, len));
+    Ok(offset + len + pad_len as i64)"""),
+    ("SHAPE_TAIL_PAD", _W, """let tail_pad = pad_to_alignment(alignment, offset as usize);
+        let body_len = offset as usize + tail_pad;"""),
+    ("SHAPE_COMPARE_DICT", _W, """let existing_len = old.len();
+    let new_len = new.len();
+    if existing_len == new_len {
+        if *old == *new {
+            return DictionaryComparison::Equal;
+        } else {
+            return DictionaryComparison::NotEqual;
+        }
+    }"""),
+    ("SHAPE_COMPARE_DICT_TAIL", _W, """if new_len < existing_len {
+        return DictionaryComparison::NotEqual;
+    }"""),
+    ("SHAPE_COMPARE_DICT_DELTA", _W, """if new.slice(0, existing_len) == *old {
+        return DictionaryComparison::Delta;
+    }
+
+    DictionaryComparison::NotEqual"""),
+    ("SHAPE_INSERT_NEW", _W, """let Some(old) = self.written.get(&dict_id) else {
+            self.written.insert(dict_id, new_data);
+            return Ok(DictionaryUpdate::New);
+        };"""),
+    ("SHAPE_INSERT_EQUAL", _W, """let comparison = compare_dictionaries(old_values, new_values);
+        if matches!(comparison, DictionaryComparison::Equal) {
+            return Ok(DictionaryUpdate::None);
+        }"""),
+    ("SHAPE_INSERT_REPLACED", _W, """self.written.insert(dict_id, new_data);
+                Ok(DictionaryUpdate::Replaced)
+            }
+            DictionaryComparison::Delta => match dict_handling {
+                DictionaryHandling::Resend => {
+                    if self.error_on_replacement {"""),
+    ("SHAPE_INSERT_DELTA", _W, """DictionaryHandling::Delta => {
+                    let delta =
+                        new_values.slice(old_values.len(), new_values.len() - old_values.len());
+                    self.written.insert(dict_id, new_data);
+                    Ok(DictionaryUpdate::Delta(delta))
+                }"""),
+    ("SHAPE_ENCODE_DICT_UPDATE", _W, """DictionaryUpdate::None => {}
+                    DictionaryUpdate::New | DictionaryUpdate::Replaced => {
+                        encoded_dictionaries.push(self.dictionary_batch_to_bytes(
+                            dict_id,
+                            dict_values,
+                            write_options,
+                            false,
+                            ipc_write_context,
+                        )?);
+                    }
+                    DictionaryUpdate::Delta(data) => {
+                        encoded_dictionaries.push(self.dictionary_batch_to_bytes(
+                            dict_id,
+                            &data,
+                            write_options,
+                            true,
+                            ipc_write_context,
+                        )?);
+                    }"""),
+    ("SHAPE_READ_BUFFER", _R, """let start_offset = buf.offset() as usize;
+    let buf_data = a_data.slice_with_length(start_offset, buf.length() as usize);"""),
+    ("SHAPE_UPDATE_DICT", _R, """if !is_delta {
+        // We don't currently record the isOrdered field. This could be general
+        // attributes of arrays.
+        // Add (possibly multiple) array refs to the dictionaries array.
+        dictionaries_by_id.insert(dict_id, dict_values.clone());
+        return Ok(());
+    }"""),
+    ("SHAPE_UPDATE_DICT_CONCAT", _R, "let combined = concat::concat(&[existing, &dict_values])"),
+    ("SHAPE_READ_META_LEN", _R, """if meta_len == CONTINUATION_MARKER {
+                self.reader.read_exact(&mut meta_len)?;
+            }
+
+            i32::from_le_bytes(meta_len)
+        };
+
+        if meta_len == 0 {
+            return Ok(None);
+        }"""),
+    ("SHAPE_FILE_DICTS_FIRST", _R, """if let Some(dictionaries) = footer.dictionaries() {
+            for block in dictionaries {
+                let buf = read_block(&mut reader, block)?;
+                decoder.read_dictionary(block, &buf)?;
+            }
+        }"""),
+    ("SHAPE_BIT_SLICE_ALIGNED", "arrow-buffer/src/buffer/immutable.rs", """if offset.is_multiple_of(8) {
+            return self.slice_with_length(offset / 8, bit_util::ceil(len, 8));
+        }"""),
+    ("SHAPE_FLIGHT_SPLIT", "arrow-flight/src/encode.rs", """let n_batches =
+        (size / max_flight_data_size + usize::from(size % max_flight_data_size != 0)).max(1);
+    let num_rows = batch.num_rows();
+    let rows_per_batch = (num_rows / n_batches).max(1);
+    let mut offset = 0;
+    let mut batches = Vec::with_capacity(n_batches);
+
+    while offset < num_rows {
+        let length = rows_per_batch.min(num_rows - offset);
+        batches.push(batch.slice(offset, length));
+        offset += length;
+    }"""),
+]
+CONSTANTS["C04"] += [(name, path, _shape(src), "intlist") for (name, path, src) in _SHAPES]
+SHAPE_NAMES = [n for (n, _, _) in _SHAPES]
+
 FUNCTIONS = {}
